@@ -1,6 +1,6 @@
 package fiber
 
-// Replay of the counterexample to (*App).ErrorHandler/post:innermost-scoped-else-root (property C08):
+// Replay of the counterexample to (*App).ErrorHandler/inv:loop1.preserve:best-is-scoped#4 (property C08):
 // an error is delivered to a sub-app's handler only if the sub-app's mount prefix contains the request
 // path on a segment boundary, otherwise to the root application's handler.
 // Counterexample: one mount "/api" with its own ErrorHandler, request path "/apix/y" (a route of the
